@@ -24,7 +24,7 @@ ASSUMPTIONS = [
     "an FSM state)",
 ]
 REQUIRED = {'allowed_collection_mutated': 50, 'puts_compared': 1000, 'rejections_seen': 200, 'acceptances_seen': 200,
-            'ctor_refusals': 20, 'restores_checked': 20, 'schema_raised': 50,
+            'ctor_refusals': 20, 'restores_checked': 20, 'inputexp_invalid_saved_value': 20, 'schema_raised': 50,
             'unhashable_puts': 10}
 SHARDS = {'quick': 8, 'thorough': 16}
 TIMEOUT = {'quick': 300, 'thorough': 3000}
@@ -238,6 +238,12 @@ def run_batch(batch, ctx):
             persistent = case['stored'] is not None and case['kind'] == 'Input'
             if persistent:
                 dict.__setitem__(storage, f"<Input 'b{i}'>", DOMAIN[case['stored']])
+            persistent_exp = case['stored'] is not None and case['kind'] == 'InputExp'
+            if persistent_exp:
+                # saved state of an InputExp: 'valid' state, timer due in a long time, the value
+                import time as _time
+                dict.__setitem__(storage, f"<InputExp 'b{i}'>",
+                                 ['valid', _time.time() + 10 ** 5, {'input': DOMAIN[case['stored']]}])
             if persistent and case.get('early_put') is not None:
                 val.early_results = []
                 EarlyFeeder(f"ef{i}", persistent=True, x_dest=f"b{i}",
@@ -264,7 +270,8 @@ def run_batch(batch, ctx):
                                       persistent=persistent, **kw)
                 else:
                     blk = edzed.InputExp(f"b{i}", duration=10 ** 6, initdef=DOMAIN[case['initdef']],
-                                         expired=DOMAIN[case['expired']], **kw)
+                                         expired=DOMAIN[case['expired']],
+                                         persistent=persistent_exp, **kw)
             except Exception as err:    # pylint: disable=broad-except
                 # initdef/expired are valid according to the reference
                 ctx.violation(case, f"valid-initdef-refused-{case['kind']}",
@@ -382,6 +389,14 @@ def check_one(case, blk, val, sim, ctx):
                 cur = out
         if len(val.feed_results) != len(case['uninit']):
             raise core.Inconclusive("C17: the feeder block did not run")
+    if case['stored'] is not None and kind == 'InputExp':
+        # the saved value part passes through the same validation; a rejected one is not restored
+        ctx.count('inputexp_restores_checked')
+        ok, out = val.ref(DOMAIN[case['stored']])
+        if ok:
+            cur = out
+        else:
+            ctx.count('inputexp_invalid_saved_value')
     if case['stored'] is not None and kind == 'Input':
         ctx.count('restores_checked')
         ok, out = val.ref(DOMAIN[case['stored']])
